@@ -47,7 +47,8 @@ def strategy_(draw, tier):
                 width=width, type=draw(st.sampled_from(TYPES)), smear=draw(st.booleans()),
                 quantity=draw(st.sampled_from([None, None, 'Hz', 'kHz', 'MHz', 'GHz'])),
                 level_type=draw(st.sampled_from(['float', 'float', 'int', 'np.float32', 'np.int64', 'np.float64'])),
-                coarse_first=draw(st.sampled_from([False, False, True])))
+                coarse_first=draw(st.sampled_from([False, False, True])),
+                call_style=draw(st.sampled_from(['explicit', 'explicit', 'omit_defaults', 'omit_defaults', 'positional'])))
 
 
 def strategy(tier):
@@ -108,6 +109,17 @@ def run_case(case, ctx):
             # unit conversion may cost an ulp of the start frequency: well inside the comparison tolerance
             return frame.add_constant_signal(f_start=(fs_ * u.Hz).to(un), drift_rate=(rate_ * u.Hz / u.s).to(un / u.s), level=level_value,
                                              width=(width * u.Hz).to(u.kHz), f_profile_type=case['type'], doppler_smearing=smear)
+        style = case.get('call_style', 'explicit')
+        if style == 'positional':
+            return frame.add_constant_signal(fs_, rate_, level_value, width, case['type'], smear)
+        if style == 'omit_defaults':
+            # documented defaults: f_profile_type='sinc2', doppler_smearing=False
+            kw_ = {}
+            if case['type'] != 'sinc2':
+                kw_['f_profile_type'] = case['type']
+            if smear:
+                kw_['doppler_smearing'] = True
+            return frame.add_constant_signal(f_start=fs_, drift_rate=rate_, level=level_value, width=width, **kw_)
         return frame.add_constant_signal(f_start=fs_, drift_rate=rate_, level=level_value, width=width,
                                          f_profile_type=case['type'], doppler_smearing=smear)
 
